@@ -24,7 +24,7 @@ from ..canon import canon, content
 ID = "C06"
 LEAN = True  # cases are distinct by construction; see engine.Acc
 RULE = (
-    "libraries = every sequence of <=2 (quick) / <=3 (thorough) blocks over a 14-block universe (entries with 0/1/3 fields, keys shorter/equal/"
+    "libraries = every sequence of <=2 (quick) / <=3 (thorough) blocks over a 15-block universe (entries with 0/1/3 fields, keys shorter/equal/"
     "longer than the column, two entries with different longest keys, string, preamble, both comment kinds, four kinds of failed blocks incl. "
     "multi-line, CRLF and newline-terminated raw) x formats = indent x value_column x trailing_comma x block_separator x parsing_failed_comment; "
     "written through write_string with an empty stack (values verbatim) and with the default stack (values brace-enclosed) and compared with a "
@@ -48,6 +48,7 @@ def universe():
         "E3": Entry("misc", "e3", [Field("title", "{T}"), Field("a", "1"), Field("averyveryverylongfieldkey", "{v}")], raw="@misc{e3,\n ...}"),
         "E2": Entry("x", "e2", [Field("abcdefgh", "{y, z}"), Field("ab", '"q"')], raw="@x{e2, ...}"),
         "E5": Entry("y", "e5", [Field("abcde", "{five}")], raw="@y{e5, abcde = {five}}"),  # len(key)+3 == 8
+        "EU": Entry("z", "eu", [Field("straße", "{x}"), Field("İstanbul_ﬁ", "{y}"), Field("k", "{z}")], raw="@z{eu, ...}"),
         "S": String("s", "{v}", raw="@string{s = {v}}"),
         "P": Preamble('"pre"'),
         "IC": ImplicitComment("% free text"),
